@@ -192,7 +192,7 @@ PROPS['C11'] = dict(
                     functions=['Grid::Grid (vector, iterator, initializer_list, shared_ptr)', 'Grid::checkValidity', 'Grid::isSteadilyIncreasing', 'Support::Support', 'Support::checkValidity',
                                'Spline::Spline', 'Spline::checkValidity', 'BSplineGenerator(knots)', 'BSplineGenerator(knots, grid)', 'BSplineGenerator::generateGrid (std::unique)',
                                'BSplineGenerator::generateBSplines<p>', 'linearCombination (argument checks)', 'interpolation::interpolate (argument checks)'])],
-    bounds=dict(quick='grid/knot sequences of 0..5 symbolic elements (IEEE doubles incl. NaN, signed zeros, infinities at solver-chosen positions; and reals), all four Grid constructors; Support index pairs over {0..n+2} and the extremes of size_t on grids of 2..4 points; coefficient counts 0..n+1 for every window; generator orders 0,2,3 and supplied grids with symbolic points; (#coeffs,#splines) in {0..3}^2; interpolate sizes for every window and boundary derivative orders {0..order+2, SIZE_MAX} at either node in every slot, orders 1..4',
+    bounds=dict(quick='grid/knot sequences of 0..5 symbolic elements (IEEE doubles incl. NaN, signed zeros, infinities at solver-chosen positions; and reals), all four Grid constructors; Grid<binary32> built from a sequence of binary64 values (the stored, rounded values decide); Support index pairs over {0..n+2} and the extremes of size_t on grids of 2..4 points; coefficient counts 0..n+1 for every window; generator orders 0,2,3 and supplied grids with symbolic points; (#coeffs,#splines) in {0..3}^2; interpolate sizes for every window and boundary derivative orders {0..order+2, SIZE_MAX} at either node in every slot, orders 1..4',
                 thorough='sequences of 0..6 elements, grids up to 5 points'),
     outside='sequences longer than the bound (the scan is a single stateless loop - stated, not proved); the full 64-bit index space of the Support constructor is covered by C13 (Engine B)',
     assumptions=['IEEE-754 binary64 comparison semantics for the F64 instantiation (z3 FPA theory)', 'exact reals for the Real instantiation'],
